@@ -418,18 +418,19 @@ func Verif_C18_interface_results() {
 // reference; under every interleaving all decodes that went through the same
 // reference hold the identical Go value, also afterwards.
 func Verif_C18_reference_chains() {
-	r1, r2 := NewReference(1, 0), NewReference(2, 0)
-	g := &verifSchedGetter{objs: map[Reference]Native{r1: r2, r2: Dict{"K": Integer(1)}}}
+	r0, r1, r2 := NewReference(3, 0), NewReference(1, 0), NewReference(2, 0)
+	// thorough tier: a chain of three (object 3 refers to object 1)
+	g := &verifSchedGetter{objs: map[Reference]Native{r0: r1, r1: r2, r2: Dict{"K": Integer(1)}}}
 	g.meta.Version = V1_7
 	x := NewExtractor(g)
 	dec := func(c Cursor, obj Object, isDirect bool) (*verifNode, error) {
 		return &verifNode{}, nil
 	}
-	G := 2 + verifrt.Tier()
+	G := 2
 	results := make([]*verifNode, G+1)
 	via := make([]Reference, G+1)
 	for i := 1; i <= G; i++ {
-		via[i] = []Reference{r1, r2}[verifrt.Choice("via", 2)]
+		via[i] = []Reference{r1, r2, r0}[verifrt.Choice("via", 2+verifrt.Tier())]
 	}
 	verifrt.StartSched()
 	for i := 1; i <= G; i++ {
